@@ -78,12 +78,16 @@ def run_vu(vu, prop, seed=0, open_findings=(), start=None, split_at=None):
         theory = core.Theory()
         stats = core.Stats()
         rt_box = {}
+        _EXECUTED, _BY_CONTRACT = set(), set()
 
         def run(ctx):
             if "rt" not in rt_box:
                 rt_box["rt"] = Runtime(prog, theory, prop)
                 rt_box["setup_done"] = False
             rt = rt_box["rt"]
+            _EXECUTED.update(rt.executed)
+            _BY_CONTRACT.update(rt.by_contract)
+            rt.executed, rt.by_contract = _EXECUTED, _BY_CONTRACT
             interp = Interp(prog, ctx, rt)
             if not rt_box["setup_done"]:
                 vu.setup_once(rt, interp)
@@ -170,6 +174,8 @@ def run_vu(vu, prop, seed=0, open_findings=(), start=None, split_at=None):
         res["assumptions"] = list(theory.assumptions)
         if "rt" in rt_box:
             res["models_used"] = sorted(rt_box["rt"].used_models)
+        res["executed"] = sorted(_EXECUTED)
+        res["by_contract"] = sorted(_BY_CONTRACT)
         if not mine and start is None and not leftover:
             res["error"] = "unit produced zero obligations for %s (engine fault)" % prop
     except Undecided as exc:
@@ -480,6 +486,8 @@ def run_check(prop, units, tier, seed, level, technique_text, trusted_base, repl
             "samples": samples,
             "explanation": technique_text,
             "functions_under_contract": functions,
+            "functions_executed_from_source": sorted({f for r in results for f in r.get("executed", [])}),
+            "functions_used_by_contract_or_model": sorted({f for r in results for f in r.get("by_contract", [])}),
             "function_text_sha": {k: v for r in results for k, v in r.get("function_sha", {}).items()},
             "units": [{"unit": r["unit"], "label": r["label"], "paths": r["paths"], "seconds": r["seconds"],
                        "obligations": len(r["obligations"]), "outcomes": r.get("outcomes"),
